@@ -110,6 +110,9 @@ type jsim struct {
 	svc    *gp.Service
 	// weighted: the generic path gets non-unit listing weights (the service path always uses 1 per listing)
 	weighted bool
+	bushy    bool
+	mergeB   int // merge-shape runs: index of the base block B and of its child P (0, 0 otherwise)
+	mergeP   int
 }
 
 func h256(h common.Hash) hash.H256 { return hash.H256(string(h[:])) }
@@ -438,9 +441,50 @@ func runJust(k *kernel.K) {
 	s.t.parent = append(s.t.parent, -1)
 	s.t.number = append(s.t.number, 0)
 	digests := k.Choose(3, "header-digests") // 0 none, 1 some, 2 all
+	// bushy runs: many short sibling forks, and signers that spread over the leaves below the target, so
+	// that a supermajority only exists after the weights of several sibling subtrees are merged
+	s.bushy = k.Bool(1, 4, "knob-bushy-tree")
+	if s.bushy {
+		nb = k.Range(6, 12, "bushy-blocks")
+	}
+	// merge-shape runs: the tree the precommit GHOST needs its merge step for - a base B with two
+	// children P and Q, P with two or three voted children, Q with one - below a short stem
+	var shape []int
+	if k.Bool(1, 5, "knob-merge-shape") {
+		stem := k.Choose(3, "merge-stem")
+		kidsP := 2 + k.Choose(2, "merge-children-of-p")
+		b := stem // index of B (0 = genesis when stem == 0)
+		shape = make([]int, 0, 12)
+		for i := 1; i <= stem; i++ {
+			shape = append(shape, i-1)
+		}
+		pIx := stem + 1
+		qIx := stem + 2
+		shape = append(shape, b, b) // P, Q
+		for i := 0; i < kidsP; i++ {
+			shape = append(shape, pIx)
+		}
+		shape = append(shape, qIx) // Y
+		if k.Bool(1, 2, "merge-deeper") {
+			shape = append(shape, pIx+2) // a child below the first child of P
+		}
+		nb = len(shape) + 1
+		s.mergeB, s.mergeP = b, pIx
+		s.bushy = false
+	}
 	for i := 1; i < nb; i++ {
 		p := i - 1
-		if k.Bool(1, 3, "fork") {
+		if shape != nil {
+			p = shape[i-1]
+		} else if s.bushy {
+			if k.Bool(2, 3, "bushy-fork") {
+				lo := i - 5
+				if lo < 0 {
+					lo = 0
+				}
+				p = lo + k.Choose(i-lo, "bushy-parent")
+			}
+		} else if k.Bool(1, 3, "fork") {
 			p = k.Choose(i, "parent")
 		}
 		wd := digests == 2 || (digests == 1 && k.Bool(1, 2, "digest"))
@@ -565,6 +609,12 @@ func (s *jsim) oneJustification(j int) {
 	sp := &jspec{tags: map[string]bool{}}
 	sp.round = uint64(1 + k.Choose(3, "round"))
 	sp.ask = 1 + k.Choose(nb-1, "block")
+	if s.mergeP > 0 && k.Bool(3, 4, "merge-ask") {
+		sp.ask = []int{s.mergeP, s.mergeP, s.mergeB, s.mergeP + 2}[k.Choose(4, "merge-ask-which")]
+		if sp.ask == 0 {
+			sp.ask = s.mergeP
+		}
+	}
 	sp.target = sp.ask
 	if k.Bool(1, 14, "commit-target-differs") {
 		if k.Bool(1, 3, "commit-target-number-off") {
@@ -600,6 +650,9 @@ func (s *jsim) oneJustification(j int) {
 		totalW += w
 	}
 	amount := k.Choose(8, "how-many-signers") // 0..4 just enough, 5 everybody, 6..7 one too few
+	if (s.bushy || s.mergeP > 0) && k.Bool(2, 3, "bushy-everybody-signs") {
+		amount = 5
+	}
 	above := s.descendantsOf(sp.target, true)
 	onChild := -1 // nearly everybody votes above the target: the precommit GHOST is then higher than the commit target
 	if len(above) > 0 && k.Bool(1, 12, "most-vote-above-target") {
@@ -633,6 +686,17 @@ func (s *jsim) oneJustification(j int) {
 			if !k.Bool(1, 5, "but-this-one-on-target") {
 				b = onChild
 			}
+		case s.mergeP > 0 && c <= 9:
+			// spread over the whole shape: the leaves below P and Q mostly, sometimes P, Q, B or the stem
+			if c <= 6 {
+				b = s.mergeP + 2 + k.Choose(nb-s.mergeP-2, "merge-vote-leaf")
+			} else {
+				b = k.Choose(nb, "merge-vote-any")
+			}
+		case s.bushy && c <= 5 && len(above) > 0:
+			b = above[k.Choose(len(above), "vote-descendant")]
+		case s.bushy && c >= 8 && c != 10:
+			b = k.Choose(nb, "vote-anywhere")
 		case c <= 6:
 		case c <= 8 && len(above) > 0:
 			b = above[k.Choose(len(above), "vote-descendant")]
